@@ -19,8 +19,9 @@ Ids == {0, 1, 2}          \* 0 = attribute missing
 (* where the input ends: inside a tag, after an opened edge, inside weight data of either key,
    inside other data, inside a comment, inside a CDATA section *)
 (* weight texts that a number parser may or may not accept: overflowing exponent, negative zero, hex,
-   explicit sign, digit separator, NaN, infinity, 400 digits, non-ASCII digits *)
-OddNumbers == {"exp", "negzero", "hex", "plus", "sep", "nan", "inf", "long", "uni"}
+   explicit sign, digit separator, NaN, infinity, 400 digits, non-ASCII digits,
+   a long non-numeric text of two-byte characters at odd byte offsets (anything that cuts it at a byte count splits one) *)
+OddNumbers == {"exp", "negzero", "hex", "plus", "sep", "nan", "inf", "long", "uni", "longuni"}
 TruncPlaces == {"tag", "edge", "data", "dataalt", "dataother", "comment", "cdata"}
 (* id 7 is the node whose name consists of the characters XML must escape: the document carries it as a mixture
    of entities and character references and the reader must decode them *)
@@ -44,7 +45,7 @@ KeyForms == IF AllHeaders THEN {"none", "std", "alt", "nofor", "noid", "othernam
    may not look at (id, parse.nodes / parse.edges / parse.order size hints) with small, huge (2^62,
    10^15), and non-numeric / negative / overflowing values; the contract ignores them *)
 HintForms == {"h_small", "h_huge", "h_big", "h_word"}
-GraphForms == IF AllHeaders THEN {"directed", "undirected", "other", "none", "absent", "twice"} \cup HintForms ELSE {"directed", "undirected"}
+GraphForms == IF AllHeaders THEN {"directed", "undirected", "other", "otheruni", "none", "absent", "twice"} \cup HintForms ELSE {"directed", "undirected"}
 
 KeyToks(k) == IF k = "none" THEN <<>> ELSE <<[t |-> "K", form |-> k]>>
 
